@@ -132,7 +132,7 @@ def _labels(v: Verdict, vec: list[str]) -> None:
 
 
 def _run_battery(case: dict[str, Any], v: Verdict, enum_limit: int) -> None:
-    power = batsys.request_power(case["groups"], case["req"])
+    power = batsys.request_power(case["groups"], case["req"], nudge=True)
     v.labels.add("battery")
 
     async def scenario() -> None:
